@@ -2,7 +2,7 @@
 import itertools, copy
 from hypothesis import strategies as st
 from vlib.core import Sub, Outcome
-from vlib import sgrterm
+from vlib import sgrterm, gen
 from ansi_string import parse_graphic_sequence, settings_to_dict
 from ansi_string.ansi_format import AnsiSetting
 
@@ -175,7 +175,7 @@ def strat():
         st.tuples(st.sampled_from([38, 48, 58]), st.just(5), byte).map(list),
         st.tuples(st.sampled_from([38, 48, 58]), st.just(2), byte, byte, byte).map(list),
     )
-    chunk = st.one_of(code.map(lambda c: [c]), code.map(lambda c: [c]), ext)
+    chunk = gen.weighted((2, code.map(lambda c: [c])), (1, ext))
     ints = st.lists(chunk, max_size=6).map(lambda ch: [x for c in ch for x in c][:14])
 
     def deco(args):
@@ -192,7 +192,7 @@ def strat():
             pos, what = odd
             toks.insert(pos % (len(toks) + 1), what)
         return toks
-    odd = st.one_of(st.none(), st.none(), st.none(), st.tuples(st.integers(0, 20), st.sampled_from(['', 'x', '1:2', '?1', '300', '38', '38;5'.split(';')[0]])))
+    odd = gen.weighted((5, st.none()), (1, st.tuples(st.integers(0, 20), st.sampled_from(['', 'x', '1:2', '?1', '300', '38', '58']))))
     toks = st.tuples(ints, st.integers(0, 2), odd).map(deco)
     old = st.one_of(st.just([]), ints.map(lambda l: [str(x) for x in l]))
     return st.fixed_dictionaries({'toks': toks, 'form': st.sampled_from(['str', 'ints', 'strs', 'mixed']),
